@@ -10,6 +10,7 @@ import (
 	"os"
 	"os/exec"
 	"path/filepath"
+	"time"
 
 	"github.com/sharedcode/sop"
 	"github.com/sharedcode/sop/cache"
@@ -103,9 +104,12 @@ func copyTree(src, dst string) error {
 	})
 }
 
+// MaxTime is the commit budget / lock TTL given to transactions created through Opts (0 = sop default, 15 min).
+var MaxTime time.Duration
+
 // Opts returns transaction options for the scenario folder.
 func Opts(mode sop.TransactionMode) sop.TransactionOptions {
-	return sop.TransactionOptions{Mode: mode, StoresFolders: []string{Dir}, CacheType: sop.InMemory, MaxTime: 0, RegistryHashModValue: fs.MinimumModValue}
+	return sop.TransactionOptions{Mode: mode, StoresFolders: []string{Dir}, CacheType: sop.InMemory, MaxTime: MaxTime, RegistryHashModValue: fs.MinimumModValue}
 }
 
 var Bg = context.Background()
